@@ -435,9 +435,24 @@ class C20(AMachine):
     expected_probes = ["both_backends_compared", "fault_stop", "bp_hit", "tuner_set_options", "runs_completed", "terminal_fault_runs",
                        "memory_breakpoint_added", "memory_breakpoint_hit", "memory_breakpoint_runs_judged"]
 
+    def gen_program(self, rng, steer, arch="x86_32"):
+        # two kinds of histories: with injected faults (no REP: see C49) or debugger-only, where REP string
+        # instructions (several IR blocks per instruction) meet code and memory breakpoints
+        self._mode = "faults" if rng.random() < 0.6 else "debug"
+        feats = self.features
+        if self._mode == "debug":
+            self.features = feats + ["rep"]
+            self.must_features = ["rep_sure"]
+        try:
+            return AMachine.gen_program(self, rng, steer, arch)
+        finally:
+            self.features = feats
+            self.must_features = []
+
     def gen(self, rng, steer):
         case = AMachine.gen(self, rng, steer)
         case["cfg"]["heal"] = rng.random() < 0.8
+        case["cfg"]["mode"] = self._mode
         # one block per call on both backends: their control points coincide, so one schedule
         # (actions keyed by control-point number) is the same history for both replicas
         case["cfg"]["knobs"]["quantum"] = 1
@@ -451,9 +466,13 @@ class C20(AMachine):
 
     def gen_actions(self, rng, cfg, steer):
         acts = []
+        debug = getattr(self, "_mode", "faults") == "debug"
         for _ in range(rng.choice([0, 1, 2, 4, 6])):
             cp = self._cp(rng)
             r = rng.random()
+            if debug and r < 0.4:
+                # debugger-only history: breakpoints instead of faults
+                r = 0.95 if r < 0.3 else 0.5
             if r < 0.25:
                 acts.append([rng.choice([rng.randint(1, 6), cp]), "unmap", rng.choice(self._pages_used(cfg))])
             elif r < 0.4:
@@ -467,9 +486,12 @@ class C20(AMachine):
             elif r < 0.91:
                 acts.append([cp, "stop"])
             elif r < 0.98:
-                acts.append([rng.choice([1, 1, cp]), "mbp", rng.randrange(9), rng.randrange(4), rng.randrange(3)])
+                acts.append([rng.choice([1, 1, cp]), "mbp", rng.randrange(13), rng.randrange(4), rng.randrange(3)])
             else:
                 acts.append([cp, "mbp_rm", rng.randrange(4)])
+        if debug and rng.random() < 0.7:
+            # watch what the string instruction reads or writes, from the start of the run
+            acts.append([1, "mbp", rng.choice([9, 10, 11, 12, 0, 5]), rng.randrange(4), rng.randrange(3)])
         return acts
 
     def judge_end(self, run, ref, log, probes):
